@@ -78,6 +78,10 @@ CHECKS = [
          text="Operations activate / deactivate / cluster-spawn / join / leave are issued at quiescence on 2..3 nodes with different kind sets and scripted select functions; TLC explores every interleaving of the resulting agent-to-agent deliveries (FIFO per link) and checks agreement of all members at quiescence with what is alive, uniqueness of an id across the cluster and placement on a capable member; an edge cover of the graph is replayed on real engines / agents connected by a capturing Remoter, and after every step Members, HasKind, GetActiveByID, Registry.GetPID and the cluster events of every member are compared with TLC's state, as is the value Activate returned. Regression configs (no purge on leave, no topology to a joiner, no duplicate check) must fail in TLC.",
          note="quiescent histories only (as the property states); the copy of a broadcast an agent sends to itself is handled within the operation; a node that left does not rejoin; the ActivationRequest round trip is atomic (the agent blocks on it)",
          ref="4/C19"),
+    dict(id="C20", engine="cluster-scenario", technique="TLC exhaustive on Provider.tla + B-scenario: an edge cover over the full input alphabet and every input sequence of length 4..5 over a small alphabet, driven into a real SelfManaged provider next to a real agent",
+         text="Provider.tla models SelfManaged.Receive (Handshake: add, answer with the complete list, report; Members: add all, report; unreachable: remove exactly the member with that host, report, an unknown address changes nothing, the provider keeps running); TLC checks the action property and the invariants and its state graph is replayed on a real provider actor (real Started: event child, event-stream subscription, mDNS announcer) whose unreachable reports are real RemoteUnreachableEvent broadcasts; after every input the provider's member list (observed as the answer to a handshake), the agent's Members() and the absence of an ActorRestartedEvent for the provider are compared with TLC's state. The regression config with the nil dereference must fail in TLC.",
+         note="member hosts pairwise different; the node's own address is never reported unreachable; nothing listens on the node's address, so peers found by mDNS cannot inject messages; the child -> provider hop after an unreachable report is awaited by polling the provider's list (2 s)",
+         ref="4/C20"),
 ]
 
 NOT_YET = {
@@ -122,7 +126,7 @@ def main():
              "kind_free_text": "operation sequences of EventStream.tla replayed on a real engine with recording subscribers (B-scenario)"},
             {"name": "reqresp-scenario", "path": "harness/cmd/reqscen", "serves_properties": ["C11"],
              "kind_free_text": "request/response histories of ReqResp.tla replayed on a real engine (B-scenario) + deadline-race stress"},
-            {"name": "cluster-scenario", "path": "harness/cmd/clusterscen", "serves_properties": ["C18", "C19"],
+            {"name": "cluster-scenario", "path": "harness/cmd/clusterscen", "serves_properties": ["C18", "C19", "C20"],
              "kind_free_text": "behaviours of ClusterAgent.tla replayed on an in-memory cluster of real engines and agents (B-scenario)"},
             {"name": "wire-table", "path": "harness/cmd/wiretable", "serves_properties": ["C15", "C16"],
              "kind_free_text": "cases enumerated by TLC from Wire.tla executed on the real stream writer / reader (B-table)"},
